@@ -542,7 +542,7 @@ func runC09(rc *fw.RunCtx) {
 		}
 		if o.Result != nil {
 			want := fmt.Sprint(99 + (5 + c) + 1 + (10 + 99))
-			if o.Err != nil || o.Result.Inspect() != want {
+			if o.Err != nil || safeInspect(o.Result) != want {
 				rc.Violate("interference/clone-call", "clone caller %d got %s, expected %s", c, o.String(), want)
 				return
 			}
